@@ -14,6 +14,9 @@ determinism)
     n="${VERIF_SELFTEST_N:-300}"
     rc=0
     for p in $props; do
+        n="${VERIF_SELFTEST_N:-300}"
+        # fault-enumeration engines re-execute each history hundreds of times
+        case "$p" in C02) [ -z "${VERIF_SELFTEST_N:-}" ] && n=24 ;; C11) [ -z "${VERIF_SELFTEST_N:-}" ] && n=100 ;; esac
         a="$(mktemp)"; b="$(mktemp)"
         "$BIN" hashes "$p" quick "$n" 1 >"$a"
         "$BIN" hashes "$p" quick "$n" 16 >"$b"
